@@ -8,6 +8,7 @@ from mc.core import UnitResult
 from ref import universe as U
 
 ID = "C01"
+PARTS = ['sound']      # outcome classes every run must produce (guards against a part of the exploration silently not running)
 RULE = ("state = (program, argument, environment answers): programs = one annotated function assembled from statement templates x expression templates x parameter "
         "types (every combination up to the construct bound); every universe object of the declared parameter type is passed; opaque conditions / raising calls are "
         "answered by an environment whose answer sequences are all enumerated; oracle: the function is executed under CPython with every evaluated "
